@@ -65,10 +65,12 @@ def scalar(rng, ctx_flow, indent):
 
 def node(rng, depth, indent, flow, anchors):
     """returns text of a node, block nodes start on the current line"""
-    props = ''
+    props = ''; pa = pt = ''
     if rng.random() < 0.12:
-        a = ('a%d' % len(anchors)) if rng.random() < 0.85 else 'a0'; anchors.append(a); props += '&' + a + ' '
-    if rng.random() < 0.15: props += rng.choice(TAGS)
+        a = ('a%d' % len(anchors)) if rng.random() < 0.85 else 'a0'; anchors.append(a); pa = '&' + a + ' '
+    if rng.random() < 0.15: pt = rng.choice(TAGS)
+    props = (pt + pa) if (pa and pt and rng.random() < 0.4) else (pa + pt)        # both orders of the node properties
+    if props and depth > 0 and rng.random() < 0.08: return props.rstrip()       # properties with empty content
     if anchors and rng.random() < 0.1: return '*' + rng.choice(anchors)
     r = rng.random()
     if depth <= 0 or r < 0.4:
